@@ -123,8 +123,11 @@ type lpAnalysis struct {
 	localFn   map[types.Object][]*lpUnit
 	paramArgs map[*lpUnit]map[int][]*lpUnit
 	fieldFn   map[types.Object][]*lpUnit // func-typed struct field -> the function values stored into it anywhere in the package
-	mutexes   map[string]*lpMutex
-	sem       *lpMutex
+	// local variable -> the func-typed struct fields whose value it was given (`if f := x.onEvent; f != nil { f() }`):
+	// a call of the variable is a call of those fields
+	localField map[types.Object][]types.Object
+	mutexes    map[string]*lpMutex
+	sem        *lpMutex
 }
 
 func (l *lpAnalysis) mutex(name string) *lpMutex {
@@ -302,6 +305,44 @@ func (l *lpAnalysis) funcValue(u *lpUnit, e ast.Expr) []*lpUnit {
 	return nil
 }
 
+// funcField: the func-typed struct field a (parenthesised) selector expression reads, or nil
+func (l *lpAnalysis) funcField(e ast.Expr) types.Object {
+	for {
+		p, ok := e.(*ast.ParenExpr)
+		if !ok {
+			break
+		}
+		e = p.X
+	}
+	if sel, ok := e.(*ast.SelectorExpr); ok {
+		if s, ok := l.a.info.Selections[sel]; ok && s.Kind() == types.FieldVal && lpIsFuncTyped(s.Obj().Type()) {
+			return s.Obj()
+		}
+	}
+	return nil
+}
+
+// bindLocal records what a func-typed local variable is given: the value of a func-typed
+// struct field, or a function value known inside the package (method value, declared
+// function, another local closure).  true: nothing else to record for this right-hand side.
+func (l *lpAnalysis) bindLocal(u *lpUnit, obj types.Object, r ast.Expr) bool {
+	if obj == nil || !lpIsFuncTyped(l.a.typeOf(r)) {
+		return false
+	}
+	if fo := l.funcField(r); fo != nil {
+		l.localField[obj] = append(l.localField[obj], fo)
+		return false // the selector's operand is still evaluated here
+	}
+	if _, isLit := r.(*ast.FuncLit); isLit {
+		return false // handled by the caller
+	}
+	if vals := l.funcValue(u, r); len(vals) > 0 {
+		l.localFn[obj] = append(l.localFn[obj], vals...)
+		return true
+	}
+	return false
+}
+
 func lpIsFuncTyped(tp types.Type) bool {
 	if tp == nil {
 		return false
@@ -403,6 +444,9 @@ func (l *lpAnalysis) callEvents(u *lpUnit, call *ast.CallExpr) []lpStmt {
 		if id, ok := call.Fun.(*ast.Ident); ok {
 			if obj := l.a.info.Uses[id]; obj != nil {
 				cs = append(cs, l.localFn[obj]...)
+				for _, fo := range l.localField[obj] {
+					out = append(out, lpStmt{op: "fieldcall", fObj: fo, note: pos + " " + l.a.oneLine(call) + " (local variable holding the value of field " + fo.Name() + ")"})
+				}
 				for w := u; w != nil; w = w.parent {
 					if i, isParam := w.params[obj]; isParam {
 						// resolved after all units are known
@@ -509,6 +553,17 @@ func (l *lpAnalysis) stmt(u *lpUnit, s ast.Stmt) []lpStmt {
 					}
 				}
 			}
+			if len(x.Lhs) == len(x.Rhs) {
+				if id, ok := x.Lhs[i].(*ast.Ident); ok {
+					obj := l.a.info.Defs[id]
+					if obj == nil {
+						obj = l.a.info.Uses[id]
+					}
+					if l.bindLocal(u, obj, r) {
+						continue
+					}
+				}
+			}
 			out = append(out, l.exprEvents(u, r)...)
 		}
 		for _, lh := range x.Lhs {
@@ -524,6 +579,11 @@ func (l *lpAnalysis) stmt(u *lpUnit, s ast.Stmt) []lpStmt {
 						if lit, ok := v.(*ast.FuncLit); ok && i < len(vs.Names) {
 							if obj := l.a.info.Defs[vs.Names[i]]; obj != nil {
 								l.localFn[obj] = append(l.localFn[obj], l.litUnit(u, lit))
+								continue
+							}
+						}
+						if i < len(vs.Names) && len(vs.Names) == len(vs.Values) {
+							if l.bindLocal(u, l.a.info.Defs[vs.Names[i]], v) {
 								continue
 							}
 						}
@@ -1090,7 +1150,7 @@ func (t *translator) lockProgs(w *bytes.Buffer) (nprogs, nmutex, nsites int) {
 	a := newWsAnalysis(t)
 	a.computeClosure()
 	l := &lpAnalysis{a: a, t: t, byFn: map[*types.Func]*lpUnit{}, byLit: map[*ast.FuncLit]*lpUnit{}, localFn: map[types.Object][]*lpUnit{},
-		paramArgs: map[*lpUnit]map[int][]*lpUnit{}, fieldFn: map[types.Object][]*lpUnit{}, mutexes: map[string]*lpMutex{}}
+		paramArgs: map[*lpUnit]map[int][]*lpUnit{}, fieldFn: map[types.Object][]*lpUnit{}, localField: map[types.Object][]types.Object{}, mutexes: map[string]*lpMutex{}}
 	l.sem = l.mutex(lpSemName)
 	l.sem.sem = true
 	var fns []*types.Func
@@ -1287,6 +1347,9 @@ func (t *translator) lockProgs(w *bytes.Buffer) (nprogs, nmutex, nsites int) {
 			fmt.Printf("go2v: lock programs: %s is taken while %s is held, against the lock order (or re-entrant): %s\n", e[1].name, e[0].name, where)
 		}
 	}
+	// the wait sites of the call path with calls through function values followed (c05vwide.go)
+	ws, wj, wf, wn := t.c05vWideTables(w)
+	fmt.Printf("go2v: GenLockProgs.v (wide wait sites) %d wait sites, %d joins in %d functions (narrow closure: %d)\n", ws, wj, wf, wn)
 	return len(progs), len(ms), nsites
 }
 
@@ -1301,6 +1364,7 @@ func (t *translator) lockProgsSafe(w *bytes.Buffer, repo string) (nprogs, nmutex
 			fmt.Fprintf(w, header, repo)
 			fmt.Fprintf(w, "From Verif Require Import Spec.WaitSpec Spec.LockProgSpec.\n\n(* EXTRACTION FAILED: %s *)\n", strings.ReplaceAll(f.msg, "*)", "* )"))
 			fmt.Fprintf(w, "Definition lockp_mutexes : list lmutex := [].\nDefinition lockp_progs : list lfunc := [mkLfunc [] (B[ SUnlock (-1) false ])].\nDefinition lockp_sites : list lsite := [mkLsite [] (-1) false].\nDefinition lockp_sites_conn : list lsite := [mkLsite [] (-1) false].\n")
+			c05vWideFallback(w)
 			fmt.Printf("go2v: LOCK-SITE EXTRACTION FAILED: %s\n", f.msg)
 			nprogs, nmutex, nsites = 0, 0, 0
 		}
